@@ -20,6 +20,8 @@ EFUN1 = ["read_file", "write_file", "rm", "mkdir", "rmdir", "file_size", "file_l
          "read_buffer", "write_bytes", "write_buffer", "stat", "get_dir", "dumpallobj", "dump_prog"]
 EFUN2 = ["rename", "link", "cp"]
 EFUNS = ["save_object", "restore_object"]
+PED = [("/d/f.txt", "/d/out"), ("/d/nofile", "/d/sub/o2"), ("/d/../master.c", "/../x"), ("/d", "/d/f.txt"), ("", "/d/new"),
+       ("/a/a", "relative"), ("//nonexistent-c15/x/y", "//nonexistent-c15/x/y"), ("/d/f.txt", "/d/sub")]
 POL_FULL = ["allow", "echo"]
 POL_FEW = ["deny", "fixed=[/a/a]", "fixed=[/d]", "fixed=[/../outside.txt]", "fixed=[//nonexistent-c15/x/y]",
            "fixed=[/d/new]", "fixed=[]"]
@@ -40,17 +42,19 @@ def br(s):
 class C15(Prop):
     id = "C15"
     title = "File access is confined to the mudlib and always mediated by the master"
-    lean_modules = ["NV.C15.Props", "NV.C15.Sites", "NV.C15.Witness"]
+    lean_modules = ["NV.C15.Props", "NV.C15.PropsSys", "NV.C15.Sites", "NV.C15.Witness"]
     theorems = ["NV.C15.legalPath_eq_spec", "NV.C15.legal_path_spec", "NV.C15.legal_path_secure",
                 "NV.C15.legal_path_safe", "NV.C15.check_valid_path_eq_spec", "NV.C15.check_valid_path_sound",
                 "NV.C15.check_valid_path_denied", "NV.C15.strip_name_relative", "NV.C15.load_open_confined",
-                "NV.C15.load_probe_relative", "NV.C15.include_path_confined", "NV.C15.judge_lp_model",
+                "NV.C15.load_probe_confined", "NV.C15.include_path_confined", "NV.C15.inc_dir_ok",
+                "NV.C15.include_path_confined_config", "NV.C15.judge_lp_model",
                 "NV.C15.judge_cvp_model", "NV.C15.judge_inc_model", "NV.C15.judge_sn_model",
-                "NV.C15.mediated_sites", "NV.C15.inventory_covers_efuns"]
+                "NV.C15.model_satisfies_spec", "NV.C15.efun_segOk", "NV.C15.fold_ok",
+                "NV.C15.mediated_sites", "NV.C15.inventory_covers_efuns", "NV.C15.efun_surface_modelled"]
     witness_theorems = ["NV.C15.include_normaliser_not_confined", "NV.C15.include_normaliser_trailing_dotdot",
                         "NV.C15.include_normaliser_slash_quirk", "NV.C15.include_unguarded_escapes",
                         "NV.C15.include_unguarded_escapes_dotdot", "NV.C15.include_empty_dir_absolute",
-                        "NV.C15.load_probe_not_confined"]
+                        "NV.C15.include_normaliser_quirk_duplicates"]
     consts = [("pathMax", "PATH_MAX"), ("maxObjectNameSize", "MAX_OBJECT_NAME_SIZE"),
               ("saveExtLen", "(sizeof SAVE_EXTENSION) - 1"), ("saveExtDot", "SAVE_EXTENSION[0]"),
               ("saveExtO", "SAVE_EXTENSION[1]")]
@@ -93,18 +97,63 @@ class C15(Prop):
     def gen_extra(self, ctx, bdir):
         sys.path.insert(0, os.path.join(E.VERIF, "tools"))
         import c15_sites
+        import re
+        m = re.search(r"^#define\s+INC_BUF_SIZE\s+(\d+)", open(os.path.join(E.REPO, "lib/lpc/lex.c")).read(), re.M)
+        if not m:
+            raise X.TieBroken("const:INC_BUF_SIZE", "lib/lpc/lex.c no longer defines INC_BUF_SIZE")
+        head = "/-- lib/lpc/lex.c: `#define INC_BUF_SIZE` -/\ndef incBufSize : Nat := %s\n\n" % m.group(1)
         try:
-            return c15_sites.generate(E.REPO, bdir, E.include_flags(bdir))
+            res = c15_sites.analyze(E.REPO, bdir, E.include_flags(bdir))
         except c15_sites.SitesError as e:
             raise X.TieBroken("sites:" + str(getattr(e, "site", "?")), "call-site inventory failed: %s" % e)
+        # efun surface: every efun implementation that reaches a file-system call must be exercised by the harness
+        self.fs_efuns = list(res["fsEfuns"])
+        missing = sorted(set(self.fs_efuns) - set("f_" + e for e in self.exercised()))
+        if missing:
+            raise X.TieBroken("efun-surface:" + ",".join(missing),
+                              "efun implementation(s) %s reach a file-system call (call graph of the inventory) but the "
+                              "C15 harness / model does not exercise them" % missing)
+        return head + c15_sites.render(res)
+
+    def exercised(self):
+        return EFUN1 + EFUN2 + EFUNS + ["ed"]
+
+    def extra_checks(self, ctx, tier, rng):
+        """run-time side of `inventory_covers_efuns`: each efun of the surface was really called in this run and its
+        implementation reached libc at least once"""
+        probs = []
+        touched = getattr(self, "touched", None)
+        if touched is None or ctx.tier == "replay":
+            return probs
+        for f in getattr(self, "fs_efuns", []):
+            e = f[2:]
+            if touched.get(e, 0) == 0:
+                probs.append({"kind": "tie-broken", "name": "efun-surface:" + f,
+                              "detail": "efun %s reaches the file system but no libc file call was observed for it in this run" % e})
+        return probs
 
     # ---- C ------------------------------------------------------------------
     def prepare(self, ctx):
         self.exe = E.compile_harness("c15", [os.path.join(E.VERIF, "harness/c15/c15.c")], extra=("-ldl",))
         self.conf = E.make_mudlib(ctx.rundir, master="/c15/master.c")
+        # include search path "/include:/" : the second entry is the mudlib directory itself (stored as ".")
+        t = open(self.conf).read()
+        t = "\n".join("IncludeDir\t/include:/" if l.startswith("IncludeDir") else l for l in t.splitlines()) + "\n"
+        open(self.conf, "w").write(t)
 
     def run_impl(self, ctx, cases):
-        return E.run_harness(self.exe, self.conf, cases, ctx.rundir, args=("--timeout", "120"))
+        res = E.run_harness(self.exe, self.conf, cases, ctx.rundir, args=("--timeout", "120"))
+        if len(cases) > 50:          # the main evaluation (not a shrink / replay round)
+            touched = {}
+            for lines in res.values():
+                cur = None
+                for l in lines:
+                    if l.startswith("call "):
+                        cur = l.split()[1]
+                    elif l.startswith("fs ") and cur:
+                        touched[cur] = touched.get(cur, 0) + 1
+            self.touched = touched
+        return res
 
     # ---- generators ------------------------------------------------------------
     def boundary(self):
@@ -128,6 +177,7 @@ class C15(Prop):
                 mk("%s-%s" % (e, pol), ["policy " + pol] + ["fx %s %s" % (e, br(p)) for p in PSAVE])
             pairs = [(a, b) for a in P2 for b in P2] if pol in POL_FULL else [("/d/f.txt", "/d/new"), ("/d/f.txt", "/d/sub"),
                                                                               ("/../x", "/d/new"), ("/d", "/a")]
+            mk("ed-%s" % pol, ["policy " + pol] + ["fx ed %s %s" % (br(a), br(b)) for a, b in PED])
             for e in EFUN2:
                 mk("%s-%s" % (e, pol), ["policy " + pol] + ["fx %s %s %s" % (e, br(a), br(b)) for a, b in pairs])
         mk("include", ["inc %s %s" % (br(b), br(n)) for b in INC_BASES for n in INC_NAMES])
@@ -206,7 +256,7 @@ class C15(Prop):
                     if j < 6:
                         lines.append("fx %s %s" % (rng.choice(EFUN1), br(self.rand_sys_path(rng))))
                     elif j < 9:
-                        lines.append("fx %s %s %s" % (rng.choice(EFUN2), br(self.rand_sys_path(rng)), br(self.rand_sys_path(rng))))
+                        lines.append("fx %s %s %s" % (rng.choice(EFUN2 + ["ed"]), br(self.rand_sys_path(rng)), br(self.rand_sys_path(rng))))
                     else:
                         p = self.rand_sys_path(rng)
                         if len(p) >= 4:
